@@ -424,6 +424,22 @@ def check(case) -> Result:
     m = must_equal(t3, "annotated")
     if m:
         return r.fail(m)
+    # (2b) the same structure built another way: every node created empty, its fields assigned in REVERSE order (keyword
+    # arguments of a node constructor may come in any order; the library's own passes build nodes that way)
+    def rebuild(n):
+        if isinstance(n, list):
+            return [rebuild(x) for x in n]
+        if not isinstance(n, ast.AST):
+            return n
+        new = type(n)()
+        for f in reversed(n._fields):
+            if hasattr(n, f):
+                setattr(new, f, rebuild(getattr(n, f)))
+        return new
+
+    m = must_equal(rebuild(tree), "nodes-built-with-fields-in-reverse-order")
+    if m:
+        return r.fail(m)
     # (3) another process, another hash seed
     hc = _child_hash(text)
     n_eq += 1
